@@ -1151,6 +1151,9 @@ class PlainQuantity(Generic[MagnitudeT], PrettyIPython, SharedRegistryObject):
         if not is_duck_array_type(type(self._magnitude)):
             return self.__pow__(other)
 
+        # Raises ValueError for an exponent that belongs to another registry.
+        self._check(other)
+
         try:
             _to_magnitude(other, self.force_ndarray, self.force_ndarray_like)
         except PintTypeError:
@@ -1212,6 +1215,8 @@ class PlainQuantity(Generic[MagnitudeT], PrettyIPython, SharedRegistryObject):
 
     @check_implemented
     def __pow__(self, other) -> PlainQuantity[MagnitudeT]:
+        # Raises ValueError for an exponent that belongs to another registry.
+        self._check(other)
         try:
             _to_magnitude(other, self.force_ndarray, self.force_ndarray_like)
         except PintTypeError:
